@@ -540,6 +540,9 @@ func cmdCheck(args []string) int {
 				if v.Kind == "panic" && strings.HasPrefix(o.Result, "panic:") {
 					confirmed = true
 				}
+				if v.Kind == "hang" && o.Result == "timeout" {
+					confirmed = true
+				}
 				if strings.HasPrefix(kind, "probe:") {
 					id := strings.TrimPrefix(kind, "probe:")
 					if confirmed || strings.HasPrefix(o.Result, "assert-fail:") || strings.HasPrefix(o.Result, "panic:") {
